@@ -189,6 +189,44 @@ func cmdCheck(args []string) int {
 	if prop == "C20" {
 		locksetFailures(results)
 	}
+	// translator self-test: witnesses of passing symbolic paths must also pass natively
+	selfTested, selfFailed := 0, 0
+	var rpShared *replayer
+	if !*noReplay {
+		want := 2
+		if *tier == "thorough" {
+			want = 8
+		}
+		sdir := filepath.Join(*vdir, "replays", prop, "selftest")
+		os.RemoveAll(sdir)
+		for _, r := range results {
+			smp := spreadSamples(r.Samples, want)
+			for i, s := range smp {
+				if rpShared == nil {
+					rpShared, err = newReplayer(*repo, hdir, w)
+					if err != nil {
+						inconclusive = append(inconclusive, "cannot build native replay binary: "+err.Error())
+						break
+					}
+					defer rpShared.Close()
+					os.MkdirAll(sdir, 0o755)
+				}
+				path := filepath.Join(sdir, fmt.Sprintf("%s-%d.json", r.Harness, i))
+				j, _ := json.MarshalIndent(map[string]any{"harness": r.Harness, "bounds": r.Bounds, "model": s["witness"], "image": s["image"], "label": "selftest", "kind": "PASS"}, "", " ")
+				os.WriteFile(path, j, 0o644)
+				ok, out := rpShared.ReplayPass(path)
+				selfTested++
+				if !ok {
+					selfFailed++
+					inconclusive = append(inconclusive, fmt.Sprintf("translator self-test: a witness of a passing symbolic path of %s does not pass natively (replay=%s): %s", r.Harness, path, lastLines(out, 3)))
+				}
+			}
+			if rpShared == nil && len(inconclusive) > 0 {
+				break
+			}
+		}
+	}
+	_ = selfFailed
 	// failures attributed to this property
 	var mine []*Failure
 	other := map[string]int{}
@@ -209,8 +247,8 @@ func cmdCheck(args []string) int {
 		rdir := filepath.Join(*vdir, "replays", prop)
 		os.RemoveAll(rdir)
 		os.MkdirAll(rdir, 0o755)
-		var rp *replayer
-		if !*noReplay {
+		rp := rpShared
+		if !*noReplay && rp == nil {
 			rp, err = newReplayer(*repo, hdir, w)
 			if err != nil {
 				inconclusive = append(inconclusive, "cannot build native replay binary: "+err.Error())
@@ -283,6 +321,7 @@ func cmdCheck(args []string) int {
 		fmt.Println("INCONCLUSIVE:", n)
 	}
 	wall := time.Since(t0).Seconds()
+	selfTestCount = selfTested
 	writeEvidence(*vdir, prop, *tier, seed, results, &reg, mine, violations, inconclusive, wall, replayed, len(knownHits))
 	if violations > 0 {
 		return 1
@@ -292,6 +331,20 @@ func cmdCheck(args []string) int {
 	}
 	fmt.Printf("OK property=%s tier=%s harnesses=%d wall=%.1fs\n", prop, *tier, len(results), wall)
 	return 0
+}
+
+var selfTestCount int
+
+// spreadSamples picks up to n samples spread over the list.
+func spreadSamples(s []map[string]any, n int) []map[string]any {
+	if len(s) <= n {
+		return s
+	}
+	var out []map[string]any
+	for i := 0; i < n; i++ {
+		out = append(out, s[i*len(s)/n])
+	}
+	return out
 }
 
 func contains(xs []string, x string) bool {
@@ -466,6 +519,24 @@ func (rp *replayer) Replay(path string, f *Failure) (bool, string) {
 	return false, out
 }
 
+// ReplayPass runs a witness of a passing path natively: it must finish without any failed assertion,
+// violated assumption or panic.
+func (rp *replayer) ReplayPass(path string) (bool, string) {
+	ctx, cancel := context.WithTimeout(context.Background(), 60*time.Second)
+	defer cancel()
+	cmd := exec.CommandContext(ctx, rp.bin, "-test.run", "^TestVerifReplay$", "-test.v", "-test.timeout", "50s")
+	cmd.Dir = rp.dir
+	cmd.Env = append(os.Environ(), "VERIF_REPLAY="+path)
+	var buf bytes.Buffer
+	cmd.Stdout = &buf
+	cmd.Stderr = &buf
+	cmd.Run()
+	out := buf.String()
+	ok := strings.Contains(out, "VERIF-REPLAY-END") && !strings.Contains(out, "VERIF-ASSERT-FAIL") &&
+		!strings.Contains(out, "VERIF-ASSUME-FALSE") && !strings.Contains(out, "VERIF-PANIC") && !strings.Contains(out, "FATAL: ")
+	return ok, out
+}
+
 // ---------------------------------------------------------------------------
 // evidence
 
@@ -505,9 +576,15 @@ func writeEvidence(vdir, prop, tier string, seed int, results []*HarnessResult, 
 			labs[l] = map[string]int{"instances": s.Checked, "concretely_true": s.Trivial, "solver_unsat": s.Discharged, "failed": s.Failed, "unknown": s.Unknown}
 		}
 		hsum = append(hsum, map[string]any{"harness": r.Harness, "bounds": r.Bounds, "paths": r.Paths, "covers": r.Covers, "obligations": labs, "queries": r.Queries, "solver_s": round2(r.SolverSec), "wall_s": round2(r.WallSec)})
-		for _, s := range r.Samples {
-			if len(samples) < 6 {
-				samples = append(samples, s)
+		for i, s := range r.Samples {
+			if i < 2 && len(samples) < 8 {
+				s2 := map[string]any{}
+				for k, v := range s {
+					if k != "image" {
+						s2[k] = v
+					}
+				}
+				samples = append(samples, s2)
 			}
 		}
 	}
@@ -551,6 +628,7 @@ func writeEvidence(vdir, prop, tier string, seed int, results []*HarnessResult, 
 			"ssa_instructions":     ninstr,
 			"solver":               map[string]any{"primary": "z3 5.1.0 (z3-new -in, incremental push/pop)", "queries": queries, "solver_s": round2(solverS)},
 			"native_replays":       replayed,
+			"translator_selftest":  map[string]any{"witnesses_of_passing_paths_replayed_natively": selfTestCount, "note": "each must finish natively without a failed assertion, violated assumption or panic; a mismatch makes the check inconclusive (exit 2)"},
 			"known_findings_hit":   knownHits,
 			"failing_obligations":  failsum,
 			"inconclusive":         inconclusive,
